@@ -51,6 +51,7 @@ def plan(tier, seed):
     hi = 8192
     for lo in range(1, hi + 1, 512):
         tasks.append({"kind": "gs_linear", "lo": lo, "hi": min(hi + 1, lo + 512)})
+    tasks.insert(0, {"kind": "large"})
     cmax = 24 if tier == "quick" else 64
     for c in range(1, cmax + 1, 4):
         tasks.append({"kind": "gs_conv", "clo": c, "chi": min(cmax + 1, c + 4), "kmax": 5 if tier == "quick" else 7})
@@ -432,9 +433,85 @@ def _gs_conv_task(task, out):
                             out["counters"]["forwards"] = out["counters"].get("forwards", 0) + 1
 
 
+def _large_task(task, out):
+    """Size ladder: accepted configurations on tensors / layers of more than 2^20 elements are honoured exactly like small ones."""
+    from optimum.quanto import QLinear, quantize_weight
+
+    only = task.get("only")
+    dtname = "float32"
+    dt = num.DTYPES[dtname]
+
+    def vals(shape):
+        n = shape[0] * shape[1]
+        i = torch.arange(n, dtype=torch.float64)
+        v = (((i * 7) % 13 - 6) / 4 + (i % 1021) * 0.01) * (1.0 + (i // shape[1]) % 5)
+        v = v.reshape(shape)
+        v[::5] = 0.0  # zero rows
+        return v.to(dt)
+
+    cfgs = [("qint4", (1000, 2048), 0, 128), ("qint2", (1000, 2048), 0, 128), ("qint4", (2000, 1030), -1, 100), ("qint4", (1031, 1040), 0, None),
+            ("qint8", (1031, 1040), 0, None), ("qfloat8_e4m3fn", (1031, 1040), 0, None), ("qfloat8_e5m2", (1040, 1031), -1, None), ("qint8", (1040, 1031), -1, None)]
+    for qname, shape, axis, gs in cfgs:
+        c = ["qw", qname, list(shape), axis, gs]
+        if only and only != c:
+            continue
+        x = vals(shape)
+        out["evals"] += 1
+        out["calls"] += 1
+        out["points"] += 1
+        out["nontrivial"] += 1
+        qt = num.qt(qname)
+        fields = {"kind": "large", "qtype": qname, "axis": axis, "grouped": gs is not None, "bits": qt.bits}
+        case = dict(task, only=c)
+        try:
+            q = quantize_weight(x, qt, axis, gs) if qt.bits < 8 else quantize_weight(x, qt, axis)
+        except Exception as e:  # noqa
+            out["violations"].append(violation(PID, case, dict(fields, sub="rejected_supported"), f"rejected_supported: quantize_weight({qname}, axis={axis}, group_size={gs}) on {shape}: {type(e).__name__}: {str(e)[:160]}"))
+            continue
+        out["counters"]["accepted"] = out["counters"].get("accepted", 0) + 1
+        if qt.bits < 8:
+            for sub, n_, msg, extra in wq.affine_judge(x, q, qt.bits, axis, gs, dtname, idempotence=False):
+                out["violations"].append(violation(PID, case, dict(fields, sub="c02_" + sub), f"c02_{sub}: accepted large configuration {c}: {msg}"))
+        else:
+            for sub, msg in _judge_qbytes(x, q, qname, axis, dtname):
+                out["violations"].append(violation(PID, case, dict(fields, sub=sub), f"{sub}: accepted large configuration {c}: {msg}"))
+    for qname in ("qint4", "qint2", "qint8", "qfloat8_e4m3fn"):
+        for fin, fout in ((2048, 1000), (1000, 2050)):
+            c = ["module", qname, fin, fout]
+            if only and only != c:
+                continue
+            out["evals"] += 1
+            out["points"] += 1
+            out["nontrivial"] += 1
+            qt = num.qt(qname)
+            fields = {"kind": "large", "qtype": qname, "module": True, "bits": qt.bits}
+            case = dict(task, only=c)
+            try:
+                m = QLinear(fin, fout, bias=True, weights=qt)
+                w = vals((fout, fin))
+                with torch.no_grad():
+                    m.weight.copy_(w)
+                gs = m.weight_group_size
+                if gs is not None and (gs <= 0 or fin % gs != 0):
+                    out["violations"].append(violation(PID, case, dict(fields, sub="group_not_divisor"), f"group_not_divisor: QLinear({fin},{fout},{qname}) chose group size {gs}"))
+                x = ((torch.arange(3 * fin, dtype=torch.float32) * 5) % 11 - 5).reshape(3, fin) / 4
+                _module_forward(m, x, case, fields, out, f"QLinear({fin},{fout},{qname})")
+                m.freeze()
+                _module_forward(m, x, case, fields, out, f"frozen QLinear({fin},{fout},{qname})")
+                q = m.weight
+                if qt.bits < 8:
+                    for sub, n_, msg, extra in wq.affine_judge(w, q, qt.bits, 0, gs, dtname, idempotence=False):
+                        out["violations"].append(violation(PID, case, dict(fields, sub="c02_" + sub), f"c02_{sub}: frozen weight of QLinear({fin},{fout},{qname}): {msg}"))
+                else:
+                    for sub, msg in _judge_qbytes(w, q, qname, 0, dtname):
+                        out["violations"].append(violation(PID, case, dict(fields, sub=sub), f"{sub}: frozen weight of QLinear({fin},{fout},{qname}): {msg}"))
+            except Exception as e:  # noqa
+                out["violations"].append(violation(PID, case, dict(fields, sub="construct_raised"), f"construct_raised: QLinear({fin},{fout},weights={qname}): {type(e).__name__}: {str(e)[:160]}"))
+
+
 def _run(task):
     out = {"evals": 0, "nontrivial": 0, "points": 0, "calls": 0, "violations": [], "samples": [], "counters": {}}
-    {"qw": _qw_task, "sym": _sym_task, "aff": _aff_task, "gs_linear": _gs_linear_task, "gs_conv": _gs_conv_task}[task["kind"]](task, out)
+    {"qw": _qw_task, "sym": _sym_task, "aff": _aff_task, "gs_linear": _gs_linear_task, "gs_conv": _gs_conv_task, "large": _large_task}[task["kind"]](task, out)
     return out
 
 
